@@ -74,7 +74,10 @@ def native_replay(unit, prop, values, outdir):
     if not prog:
         return None
     import replay
-    return replay.run(unit, prop, values, outdir)
+    r = replay.run(unit, prop, values, outdir)
+    if r and r['verdict'] == 'no-replay':
+        return None
+    return r
 
 
 def triage(unit, units, res, prop, tier='quick'):
@@ -129,6 +132,9 @@ def triage(unit, units, res, prop, tier='quick'):
                 res['failed'].append({'obligation': m.group(1) + ' [bounded re-check, capacity %d]' % BCAP, 'text': m.group(2)})
         path = write_replay(prop, unit, res, body + '\nobligations failing in the bounded run:\n' + '\n'.join(failed_b[:20]) +
                             '\n\nverifier output with counterexample trace:\n' + blog[-30000:])
+        if nat and nat.get('file'):
+            # one replay artefact: the native reproduction, followed by the verifier's side
+            open(nat['file'], 'a').write('\n\n==== verifier side ====\n' + open(path).read())
         return {'verdict': 'violation', 'replay': (nat or {}).get('file') or path, 'failing_input': True, 'reason': 'refuted; bounded re-check gives a counterexample'}
     path = write_replay(prop, unit, res, 'bounded re-check gave no verdict:\n' + blog[-8000:])
     return {'verdict': 'undecided', 'replay': path, 'reason': 'refuted under loop contracts, bounded re-check undecided'}
